@@ -2687,13 +2687,16 @@ class UTPM(Ring, RawAlgorithmsMixIn):
         D,P = y.data.shape[:2]
 
 
+        # a constant (plain array) operand is lifted to a polynomial, its adjoint is discarded
         if not isinstance(A, UTPM):
-            raise NotImplementedError('should implement that')
+            tmp = numpy.asarray(A)
+            A = UTPM(numpy.zeros( (D,P) + tmp.shape, dtype=numpy.result_type(tmp.dtype, y.data.dtype)))
+            A.data[0,:] = tmp
 
         if not isinstance(x, UTPM):
 
-            tmp = x
-            x = UTPM(numpy.zeros( (D,P) + x.shape))
+            tmp = numpy.asarray(x)
+            x = UTPM(numpy.zeros( (D,P) + tmp.shape, dtype=numpy.result_type(tmp.dtype, y.data.dtype)))
             for p in range(P):
                 x.data[0,p] = tmp[...]
 
@@ -2702,12 +2705,11 @@ class UTPM(Ring, RawAlgorithmsMixIn):
             Abar = A.zeros_like()
 
         else:
-            if out[1] is None:
-                Abar = out[0]
+            Abar, xbar = out
+            if Abar is None:
+                Abar = A.zeros_like()
+            if xbar is None:
                 xbar = x.zeros_like()
-
-            else:
-                Abar, xbar = out
 
         cls._solve_pullback(ybar.data, A.data, x.data, y.data, out = (Abar.data, xbar.data))
 
